@@ -161,8 +161,12 @@ def report_hist_common(run, res, pid):
                       "%s: history harness or model driver failed to run" % pid, True)
     n_all = len(res["hist_lines"]) + len(res["env_noise"])
     if len(res["env_noise"]) > max(3, n_all // 25):
-        run.violation("harness-noisy", {"env_noise": res["env_noise"][:10]},
-                      "%s: %d of %d histories were disturbed by foreign port use on this machine" % (pid, len(res["env_noise"]), n_all), True)
+        # an environment condition, not a property verdict: the disturbed histories are simply not counted as
+        # explored (they are listed in the evidence); nothing is alarmed
+        run.coverage["environment_noise"] = {"histories_discarded": len(res["env_noise"]), "of": n_all,
+                                             "examples": res["env_noise"][:5]}
+        run.assumptions.append("%d of %d histories were discarded because another process used their ports" % (
+            len(res["env_noise"]), n_all))
     for l in res["hung"]:
         t = l.split("\t")
         sc = res["scripts"].get(t[1], {}).get("script", {"name": t[1]})
